@@ -3,6 +3,7 @@ package vsync
 
 import (
 	"fmt"
+	"reflect"
 	"sort"
 
 	zzvrt "github.com/go-spring/log/zzvrt"
@@ -41,6 +42,16 @@ func (p *Pool) Put(v any) {
 	zzvrt.Point(zzvrt.KPool, nil)
 	if v == nil {
 		return
+	}
+	// an object that is put back while it is already in the pool will be handed to two callers: whatever
+	// the order in which the pool returns its objects, that is a defect of the code under test (the real
+	// sync.Pool would show it only for some orders), so the execution ends with an outcome of its own
+	if rv := reflect.ValueOf(v); rv.Kind() == reflect.Ptr {
+		for _, it := range p.items {
+			if it == v {
+				zzvrt.Abort(fmt.Sprintf("panic: pooled object %T put back while it is already in the pool (two later Get calls would share it)", v))
+			}
+		}
 	}
 	p.items = append(p.items, v)
 }
